@@ -379,6 +379,9 @@ class SymEval:
                             "hasattr", "getattr", "slice", "str", "type", "iter", "next"):
                     return S.call(name, *args)
         if q is not None:
+            if q in ("numpy.maximum", "numpy.minimum") and len(args) == 2 and not kwargs:
+                # the element-wise maximum of two values is their maximum
+                return S.emax(*args) if q.endswith("maximum") else S.emin(*args)
             if q in _MATH:
                 nm = _MATH[q]
                 if nm == "square" and len(args) >= 1:
